@@ -27,6 +27,10 @@ class Check(EngineCheck):
                 "LLBuild.Refine.EngineImpl_sound_C06_schedule_independent", "LLBuild.Refine.EngineImpl_sound_C06_clean_value",
                 "LLBuild.Refine.EngineImpl_sound_C06_clean_value_unique", "LLBuild.Refine.EngineImpl_sound_C06_ghost_flag",
                 "LLBuild.Refine.EngineImpl_sound_C06_schedule_independent_partial", "LLBuild.Refine.EngineImpl_sound_C06_clean_value_partial",
+                # … and the same SET of executed rules (Props/EngineImplSched2.lean): T k ∈ trace ↔ MustRun, a schedule-free reference
+                "LLBuild.Refine.EngineImpl_sound_C06_same_executed_set", "LLBuild.Refine.EngineImpl_sound_C06_same_executed_set_nofail",
+                "LLBuild.Refine.EngineImpl_sound_C06_executed_reference", "LLBuild.Refine.EngineImpl_sound_C06_in_order",
+                "LLBuild.Refine.monitor_accepts_out_of_order",
                 "LLBuild.Refine.EngineImpl_sound_C05_quiescent_async", "LLBuild.Refine.EngineImpl_async_nil"]
     mix = [(0.45, {}), (0.35, {"threads": True}), (0.2, {"foreign_cancel": True})]
     budget = (300, 3000)
